@@ -9,6 +9,7 @@ import rules_ct
 import rules_sibling
 import rules_codec
 import rules_ftype
+import rules_canon
 
 
 class Context:
@@ -57,6 +58,29 @@ STRUCTURAL = ("exact static rule check over all paths of the enumerated function
               "decides the named structural clauses (necessary conditions), not the behaviour itself")
 
 PROPS = {
+    "C01": {
+        "title": "Canonicity: edges are equal exactly when they denote the same function",
+        "rules": [on_program(rules_canon.rule_canon), on_program(rules_canon.rule_hash), on_program(rules_canon.rule_equals), callers_for("C01")],
+        "explanation": STRUCTURAL + ". C01: reduce-then-lookup-before-insert on every path of node creation (normalise, transparent/identity/redundant elimination, sort, hash, find, insert — in order), "
+                       "hash recipe agreement between the unpacked and the packed form in all four variants, edge equality reading forest id + node + edge value, and who may write packed nodes / the unique table.",
+        "assumptions": ["that the reduction conditions and the EV normal forms are the right ones is not decided (value semantics)", "float tolerance effects in EV* are not decided"],
+        "technique": "ordered must-pass-through rules over the clang CFG of forest::createReducedNode; sibling comparison of the two hash functions per variant; who-may-call tables",
+        "level_text": "exact static rule check over all paths of forest::createReducedNode and the two hash functions plus the caller tables; decides the structural clauses canonicity rests on, not the normal forms themselves",
+        "design_ref": "DESIGN.md §2.7, §2.6, §2.5, §3 C01",
+        "level_note": "trusts clang 14 CFGs; events are 'calls that reach X', so extracting a step into a helper keeps the rule satisfied only if the helper is called on every path",
+    },
+    "C02": {
+        "title": "Every stored node obeys the forest's declared reduction rule",
+        "rules": [on_program(rules_canon.rule_canon), callers_for("C02"), on_program(rules_layer.rule_active_count), on_program(rules_layer.rule_cache_before_rewrite),
+                  on_program(rules_layer.rule_exchange_once), on_program(rules_sibling.rule_swap_loops), on_program(rules_canon.rule_hash)],
+        "explanation": STRUCTURAL + ". C02: no transparent / redundant / identity pattern is inserted on any path of node creation and the stored level is the unpacked level; packed nodes are written only by creation and by the reordering primitives; "
+                       "node count = live nodes (incActive/decActive pairing); the in-place rewrite of the adjacent-variable swap visits the same ranges in its MT and EV+ twins; full and sparse forms hash identically.",
+        "assumptions": ["children strictly below parents, quasi-reduced never skipping and singleton-edge legality after arbitrary operation histories depend on the values operations put into nodes: not decided"],
+        "technique": "ordered must-pass-through rules over clang CFGs; who-may-call tables; twin-function comparison of the swap routines",
+        "level_text": "exact static rule check over forest::createReducedNode, the caller tables, the allocation/deallocation sites and the twin swap routines; decides structural necessary conditions of the stored-node invariants",
+        "design_ref": "DESIGN.md §2.7, §2.5, §3 C02",
+        "level_note": "trusts clang 14 CFGs and the caller table in lib/rules_layer.py",
+    },
     "C04": {
         "title": "Set algebra (union, intersection, difference, complement, cross) is pointwise",
         "rules": [rules_ftype.rule_mix_sets, callers_for("C04")],
